@@ -23,4 +23,40 @@ CHECKS = {
           '(at most once per process call; oracle: memory safety, pool conservation, never after confirmed deletion, one-shot at most once, nothing lost after a final flush; pool 1, 3 operations).',
   'note': 'preemption only at lock/unlock boundaries (statement-level preemption outside critical sections reduces to these because that code touches task-private data apart from the loop-head read of Elapsed); RTOS-task concurrency outside the claim',
  },
+ 'C01': {
+  'text': 'Inductive safety step of the SDO server on the real sources: server state, transfer buffer, object contents and one whole frame (command byte, dlc, payload) symbolic under a written-down representation invariant; '
+          'all cbmc memory-safety / arithmetic / unwinding checks on, invariant re-established, bounded number of responses, no fatal error. One discharged step covers frame histories of any length. '
+          'Block size scaled to N in {2,4} (thorough 2,3,4,6), one or two servers, 12 object kinds. The bounded-history harnesses of C02..C20 run with the same built-in checks.',
+  'note': 'invariant sdo_inv.h (too weak => counterexample replayed natively; too strong => vacuity witnesses fail); block transfers at the production block size 127 outside the bound; dictionary structure = the template family; service steps other than SDO are covered by the per-property harnesses',
+ },
+ 'C02': {
+  'text': 'Reference SDO client in the harness drives the real server through CONodeProcess: expedited download + read back of 8/16/32-bit and node-id-relative objects, segmented download of every size 1..21 (thorough ..35) to a domain, '
+          'block download at N in {2,3} (thorough ..4) with every position of one lost segment per block; payload, size indication, domain size and prior contents symbolic; every response byte and the final storage checked. Two-server non-interference as an inductive step.',
+  'note': 'size per instance concrete (keeps every command byte concrete for cbmc), data symbolic; loss of the final segment of a block (recoverable only by client time-out) excluded; payload longer than an unannounced object excluded',
+ },
+ 'C03': {
+  'text': 'Reference client reassembles segmented and block uploads of domain and string objects of every size 1..21 (thorough ..35): block sizes 1, 2, 3, 127 (clamped), every partial-acknowledge pattern of up to two partial acks per transfer, block size change at complete acknowledges; contents symbolic; assembled bytes, announced size, sequence numbers, c-bit, n-field, unchanged object checked.',
+  'note': 'acknowledge patterns and sizes enumerated concretely by the driver, data symbolic; new block size inside a PARTIAL acknowledge not exercised (server keeps the old size, stated in DESIGN.md appendix B)',
+ },
+ 'C04': {
+  'text': 'sdo_lookup: COSdoCheck+COSdoGetObject with a fully symbolic 24-bit multiplexer and symbolic R/W flags on all application entries against a linear reference lookup (existence, access right, abort codes 0602 0000h / 0609 0011h / 0601 0001h / 0601 0002h). '
+          'sdo_step phases idle / segmented-open: all 256 command bytes with symbolic payload from an arbitrary server state, verdict table (response count, multiplexer echo, 0607 0012h/0013h, 0503 0000h, 0504 0001h, refused => storage unchanged).',
+  'note': 'type-specific abort codes (0609 0030h, 0604 004xh) are checked with the owning objects in C11/C14/C15/C16; dictionaries beyond the template family outside',
+ },
+ 'C05': {
+  'text': 'From an ARBITRARY server state of each phase under the invariant (established inductive by C01), a client abort (or NMT reset communication) followed by a fresh conforming transfer of each mode (expedited, segmented and block, both directions, incl. objects of at most 4 byte on domain/string) yields the reference outcome with exact data. AG EF idle by induction instead of exploration.',
+  'note': 'same reference client as C02/C03; N=2, domain 14 byte',
+ },
+ 'C09': {
+  'text': 'One input of each class (NMT command with symbolic cs/target/dlc, SDO request, RPDO, SYNC, monitored heartbeat, LSS frame, 22 foreign identifiers next to every claimed one, API mode change, EMCY set, TPDO trigger, heartbeat producer due) in each NMT mode against the CiA 301 transition and gating table; the model state is the mode, so one step is an induction over command sequences.',
+  'note': 'a fully symbolic identifier does not terminate in cbmc (every decoder becomes symbolic at once), identifiers are enumerated; NMT frames with dlc < 2 unconstrained',
+ },
+ 'C15': {
+  'text': 'One EMCY operation (set with/without manufacturer fields, clear, reset silent/loud, SDO write 1003:0, SDO read 1003:n, get/count) from an arbitrary consistent emergency state: table (class 0..7, code), active set, history ring contents/fill/position, 1014h incl. valid bit all symbolic; 4 errors (thorough 6), depth 1..3 (4), modes PRE-OP/OPERATIONAL/STOP. Register, counters, frames and newest-first history against a reference model.',
+  'note': 'ring fill/position enumerated for the set operation; 29-bit identifiers in 1014h outside',
+ },
+ 'C18': {
+  'text': 'One frame on 7E5h from an arbitrary LSS state (step, pending configuration, flags), symbolic identity 1018h:1..4, node id, arguments, dlc; every known command specifier (thorough: all 256) in both LSS states and three NMT modes against the CiA 305 service table; plus the configure / store / reset-communication / boot-up scenario.',
+  'note': 'interleaving of selective and identify sequences unconstrained; activate-bit-timing only gated; 67/75/76 decoded by calling COLssCheck directly (see DESIGN.md)',
+ },
 }
